@@ -793,3 +793,7 @@ def check(run):
     # class carries that class's options
     from . import c18
     run.rule(c18.r18i, run)
+    # round 8: shared helpers decided as tables (helper_table.py)
+    from . import helper_table as _ht
+    run.rules_run.append("R15k")
+    run.rule(_ht.r_attr, run)
